@@ -227,7 +227,7 @@ def run(chk, rng, replay=None):
     ratio = max((float(np.linalg.norm(s)) / c["delta"] for c, s in out), default=0.0)
     chk.coverage.update({
         "evaluations": len(cases), "distinct_nontrivial": sum(1 for c, s in out if np.any(s)),
-        "rule": "random calls of the five public subproblem solvers: n 1..6, magnitudes over 12 decades, zero / partly zero gradients, zero / semidefinite / negative / indefinite Hessians, bounds active at the origin, one- and two-sided infinite bounds, boxes inside the trust region, redundant and rank-deficient constraint rows, zero rows, radii 1e-6..1e6, improve_tcg on/off; origin feasible. The returned step is checked EXACTLY (rationals, in Lean): xl' <= s <= xu'; |s|^2 <= (delta (1+1e-9))^2; A_ub s <= max(b,0) + 1e3 eps n (|A||s|+|b|); |A_eq s| <= 1e3 eps n |A_eq||s|. Non-trivial = non-zero step returned.",
+        "rule": "random calls of the five public subproblem solvers: n 1..6, magnitudes over 12 decades, zero / partly zero gradients, zero / semidefinite / negative / indefinite Hessians, bounds active at the origin, one- and two-sided infinite bounds, boxes inside the trust region, redundant and rank-deficient constraint rows, zero rows, radii 1e-6..1e6, improve_tcg on/off; origin feasible. The returned step is checked EXACTLY (rationals, in Lean): xl' <= s <= xu'; |s|^2 <= (delta (1+1e-12))^2; A_ub s <= max(b,0) + 1e3 eps n (|A||s|+|b|); |A_eq s| <= 1e3 eps n |A_eq||s|. Non-trivial = non-zero step returned.",
         "samples": [subgen.case_json(out[-1][0])] if out else [],
         "calls_by_solver": per_kind, "degeneracies_hit": stats(out), "largest_norm_over_radius": ratio,
         "solver_crashes": len(crashed), "predicate_failures": len(fails),
@@ -242,7 +242,7 @@ def run(chk, rng, replay=None):
     chk.coverage["loop_model_correspondence_constrained_tangential_first_phase"] = cstat
     tmism = tmism + wmism + cmism2
     chk.assumptions += ["kernel theorems are exact-arithmetic; the working-set / QR loops of the constrained solvers are not modelled and are covered by the sampled calls only",
-                        "allowances for the linear constraints are proportional to eps n (|A||s| + |b|) (factor 1e3); bounds are checked exactly, the radius with relative slack 1e-9 (the rounding of the square root in the boundary-improvement phase is amplified by 1 / sin^2 of the angle between step and gradient: excesses up to 3e-11 observed in 80 000 calls)"]
+                        "allowances for the linear constraints are proportional to eps n (|A||s| + |b|) (factor 1e3); bounds are checked exactly, the radius with relative slack 1e-12 (after the repair F20 the largest excess seen in 570 000 calls of the three trust-region solvers is 4.4e-16)"]
     for c, what in crashed[:3]:
         chk.violation({"property": "C15", "kind": "spec-fails-on-implementation", "case": subgen.case_json(c), "failure": "the solver did not return a finite step: " + what,
                        "signature": {"failure": "crash", "solver": c["kind"]}})
